@@ -164,6 +164,13 @@ impl Gitignore {
         self.set.len()
     }
 
+    /// Verification hook: the compiled globs in the order of their lines.
+    /// Only with the `verif-hooks` feature.
+    #[cfg(feature = "verif-hooks")]
+    pub fn verif_globs(&self) -> &[Glob] {
+        &self.globs
+    }
+
     /// Returns the total number of ignore globs.
     pub fn num_ignores(&self) -> u64 {
         self.num_ignores
